@@ -274,6 +274,354 @@ def scripted_histories(ctx, pending):
                 os.remove(f)
 
 
+# ---------------------------------------------------------------------------------------------------------------------
+# Every way the library itself writes an index file, followed by the property's comparison
+# ---------------------------------------------------------------------------------------------------------------------
+
+_FRACTIONS = [0.0, 0.1, 0.2, 0.3, 0.4, 0.5, 0.6, 0.7, 0.8, 0.9, 0.25, 0.75, 0.05, 0.95, 0.499, 0.501, 0.999]
+
+
+def _junk(rng):
+    k = rng.randrange(4)
+    if k == 0:
+        return b'$GPGGA,%06d.00,3723.2475,N,12158.3416,W,1,07,1.0,9.0,M,,,,0000*18\r\n' % rng.randrange(240000)
+    if k == 1:
+        return bytes(rng.randrange(256) for _ in range(rng.choice([1, 5, 30])))
+    if k == 2:
+        return b'\xd3\x00\x13' + bytes(rng.randrange(256) for _ in range(22))        # RTCM-like frame
+    return b'boot: receiver v1.2\r\n'
+
+
+def timed_mixed_log(rng, i, n):
+    """A capture of n FusionEngine messages with non-FusionEngine bytes in front of, between and after them.
+    Timed messages step through P1 times whose fractional seconds cover [0, 1) on both sides of one half; untimed messages, timed
+    classes with an invalid time and unknown types are interleaved. i selects the junk layout: 0 - junk before every message,
+    1 - random, 2 - leading banner only, 3 - none (a clean .p1log), then random."""
+    from props import reader_common as rc
+    timed, untimed = rc.timed_payloads()
+    base = float(rng.choice([0, 1, 99, 100, 4000]))
+    if i % 2 == 0:
+        fr = list(_FRACTIONS[:10])                      # .0 .1 ... .9 in order, the second advancing now and then
+        start = rng.randrange(10)
+        fr = fr[start:] + fr[:start]
+    else:
+        fr = [rng.choice(_FRACTIONS) for _ in range(n)]
+    parts, times = [], []
+    sec = base
+    prev_f = -1.0
+    seq = 0
+    layout = i % 4 if i < 4 else 1
+    if layout in (0, 1, 2):
+        parts.append(_junk(rng))
+    k = 0
+    while seq < n:
+        u = rng.random()
+        if u < 0.62:
+            f = fr[k % len(fr)]
+            k += 1
+            if f <= prev_f and rng.random() < 0.8 or f < prev_f:
+                sec += rng.choice([1, 1, 1, 2])
+            prev_f = f
+            t = sec + f
+            ty, p, v = rng.choice(timed)(t)
+            times.append(t)
+        elif u < 0.68:
+            ty, p, v = rng.choice(timed)(float('nan'))
+        elif u < 0.9:
+            ty, p, v = rng.choice(untimed)(None)
+        else:
+            ty, p, v = rng.choice([9, 2999]), bytes(rng.randrange(256) for _ in range(rng.choice([0, 3]))), 0
+        if seq > 0 and (layout == 0 or layout == 1 and rng.random() < 0.4):
+            parts.append(_junk(rng))
+        parts.append(gen.frame(ty, p, seq, 0, v))
+        seq += 1
+    if layout in (0, 1) and rng.random() < 0.6:
+        parts.append(_junk(rng))
+    return b''.join(parts), times
+
+
+def _make_range(q):
+    from fusion_engine_client.utils.time_range import TimeRange
+    from fusion_engine_client.messages import Timestamp
+    if q.get('range') is None:
+        return None
+    kind, a, b = q['range']
+    if kind == 'abs':
+        return TimeRange(start=None if a is None else Timestamp(a), end=None if b is None else Timestamp(b), absolute=True)
+    return TimeRange(start=a, end=b, absolute=False)
+
+
+def _read(path, q, **kw):
+    from fusion_engine_client.messages import MessageType
+    mt = None if q.get('types') is None else [MessageType(t) for t in q['types']]
+    return open_log(path, time_range=_make_range(q), message_types=mt, **kw)
+
+
+def queries(rng, times, types, thorough):
+    """Unfiltered, each type (and a pair), and time ranges with one or both bounds AT message times, BETWEEN them (fractional
+    seconds on both sides of .5), at the whole seconds around them, absolute and relative to the first time of the log."""
+    qs = [{}]
+    known = sorted(t for t in types if t in (10000, 10001, 13003, 13004))
+    qs += [{'types': [t]} for t in known]
+    if len(known) > 1:
+        qs.append({'types': known[:2]})
+    ts = sorted(set(times))
+    bounds = set()
+    for j, t in enumerate(ts):
+        fl = float(int(t))
+        bounds.update([t, fl, fl + 1.0, fl + 0.5, round(t + 0.05, 6), round(t + 0.3, 6)])
+        if t - 0.05 >= 0:
+            bounds.add(round(t - 0.05, 6))
+        if j + 1 < len(ts):
+            bounds.add(round((t + ts[j + 1]) / 2, 6))
+    bounds = sorted(bounds)
+    if not thorough and len(bounds) > 24:
+        keep = set(rng.sample(bounds, 24))
+        bounds = [b for b in bounds if b in keep]
+    for b in bounds:
+        qs.append({'range': ('abs', None, b)})
+        qs.append({'range': ('abs', b, None)})
+    for _ in range(12 if thorough else 4):
+        if len(bounds) >= 2:
+            a, b = sorted(rng.sample(bounds, 2))
+            qs.append({'range': ('abs', a, b)})
+            if known:
+                qs.append({'range': ('abs', a, b), 'types': [rng.choice(known)]})
+    if ts:
+        t0 = ts[0]
+        rel = sorted(set(round(b - t0, 6) for b in bounds if b >= t0))
+        for b in (rel if thorough else rng.sample(rel, min(len(rel), 6))):
+            qs.append({'range': ('rel', None, b)})
+            qs.append({'range': ('rel', b, None)})
+    return qs
+
+
+def _qkey(q):
+    return json.dumps(q, sort_keys=True)
+
+
+def producers(d):
+    """(label, function(dir) -> path of the data file whose .p1i the library has just written). Every one is an unmodified
+    library entry point that leaves an index file next to a data file."""
+    from fusion_engine_client.parsers import MixedLogReader
+    from fusion_engine_client.parsers.file_index import FileIndex, FileIndexBuilder
+    from fusion_engine_client.utils import log as felog
+
+    def put(dirp, name):
+        p = os.path.join(dirp, name)
+        with open(p, 'wb') as f:
+            f.write(d)
+        return p
+
+    def reader_open(dirp, name='capture.raw'):
+        p = put(dirp, name)
+        open_log(p)
+        return p
+
+    def generate_index_file(dirp):
+        p = put(dirp, 'input.p1log')
+        MixedLogReader.generate_index_file(p)
+        return p
+
+    def fast_indexer_2_threads(dirp):
+        from fusion_engine_client.parsers import fast_indexer
+        p = put(dirp, 'input.raw')
+        fast_indexer.fast_generate_index(p, num_threads=2)
+        return p
+
+    def builder_append(dirp):
+        p = put(dirp, 'mixed.bin')
+        b = FileIndexBuilder()
+        r = MixedLogReader(p, ignore_index=True, save_index=False, return_offset=True, num_threads=1)
+        for header, payload, off in r:
+            b.append(message_type=header.message_type, offset_bytes=off, p1_time=payload.get_p1_time() if payload is not None else None)
+        r.input_file.close()
+        b.save(FileIndex.get_path(p), p)
+        return p
+
+    def builder_from_file(dirp):
+        p = put(dirp, 'mixed.p1log')
+        b = FileIndexBuilder()
+        b.from_file(p)
+        b.save(FileIndex.get_path(p), p)
+        return p
+
+    def extract_to(dirp):
+        p = put(dirp, 'capture.bin')
+        out = os.path.join(dirp, 'extracted.p1log')
+        felog.extract_fusion_engine_log(p, out)
+        return out
+
+    def extract_default_name(dirp):
+        p = put(dirp, 'capture.raw')
+        felog.extract_fusion_engine_log(p)
+        return os.path.join(dirp, 'capture.p1log')
+
+    def extract_in_place(dirp):
+        p = put(dirp, 'mixed.p1log')
+        felog.extract_fusion_engine_log(p)
+        return p
+
+    def extract_over_older_output(dirp):
+        # an older, longer output and its index are already there
+        out = os.path.join(dirp, 'extracted.p1log')
+        with open(out, 'wb') as f:
+            f.write(gen.frame(9, bytes(5), 0) * 40)
+        open_log(out)
+        p = put(dirp, 'capture.bin')
+        felog.extract_fusion_engine_log(p, out)
+        return out
+
+    def locate_and_extract(dirp):
+        p = put(dirp, 'capture.raw')
+        got = felog.locate_log(p, extract_fusion_engine_data=True)
+        return got if got is not None else os.path.join(dirp, 'capture.p1log')
+
+    def resave_loaded(dirp):
+        p = reader_open(dirp, 'input.p1log')
+        p1i = FileIndex.get_path(p)
+        if os.path.exists(p1i):
+            FileIndex(p1i, p).save(p1i, p)
+        return p
+
+    def save_full_slice(dirp):
+        p = reader_open(dirp, 'input.p1log')
+        p1i = FileIndex.get_path(p)
+        if os.path.exists(p1i):
+            FileIndex(p1i, p)[:].save(p1i, p)
+        return p
+
+    return [('MixedLogReader(path)', reader_open), ('MixedLogReader.generate_index_file', generate_index_file),
+            ('fast_generate_index(num_threads=2)', fast_indexer_2_threads),
+            ('FileIndexBuilder.append-loop+save', builder_append), ('FileIndexBuilder.from_file+save', builder_from_file),
+            ('extract_fusion_engine_log(in,out)', extract_to), ('extract_fusion_engine_log(in)', extract_default_name),
+            ('extract_fusion_engine_log(in-place)', extract_in_place),
+            ('extract_fusion_engine_log(over-older-output)', extract_over_older_output),
+            ('locate_log(extract_fusion_engine_data=True)', locate_and_extract),
+            ('FileIndex(load).save', resave_loaded), ('FileIndex[:].save', save_full_slice)]
+    # (a PARTIAL slice saved under the log's index name is the caller mislabelling a sub-index - the size marker is all the format
+    # has to tell indexes of one file apart - and is not one of the library's own ways of writing an index)
+
+
+def written_indexes(ctx, n_inputs, lines, pending):
+    """For every producer of an index file: the index it left must load as the fresh index of the data file (entry for entry) or be
+    refused, its bytes must be the ones the Lean model of save() gives for the fresh index, and every read through it - unfiltered,
+    by type, by time range - must return what the same read returns with the index ignored (and, unfiltered, the Lean scan)."""
+    import shutil
+    import tempfile
+    rng = ctx.rng
+    for i in range(n_inputs):
+        if i == n_inputs - 1 and n_inputs > 2:
+            d, times = b''.join(x + _junk(rng) for x in ic.boundary_time_messages(rng)), []
+        else:
+            d, times = timed_mixed_log(rng, i, rng.choice([6, 9, 12]))
+        ign_cache = {}
+        fresh_cache = {}
+        qcache = {}
+        seen_pairs = set()
+        # the entry points that take no thread count start one indexer process per CPU: all but the first input are processed as
+        # on a two-CPU machine (the result may not depend on it; C08 varies the thread count)
+        from fusion_engine_client.parsers import fast_indexer
+        real_cpu_count = fast_indexer.cpu_count
+        for label, fn in producers(d):
+            if i > 0:
+                fast_indexer.cpu_count = lambda: 2
+            dirp = tempfile.mkdtemp(prefix='w_', dir=ic.tmpdir())
+            replay = {'producer': label, 'input': d.hex(), 'input_p1_times': times}
+            try:
+                try:
+                    path = fn(dirp)
+                except BaseException as e:
+                    # what the producers do besides writing an index is the business of other properties; a producer that fails
+                    # outright has produced no index to judge - but it is counted, and must not be the normal case
+                    ctx.count('producer_raised')
+                    ctx.count('producer_raised:%s:%s' % (label, type(e).__name__))
+                    continue
+                p1i = os.path.splitext(path)[0] + '.p1i'
+                if not os.path.exists(path) or not os.path.exists(p1i):
+                    ctx.count('producer_left_no_index')
+                    continue
+                data = open(path, 'rb').read()
+                B = open(p1i, 'rb').read()
+                replay = dict(replay, data=data.hex(), p1i=B.hex(), truncate_p1i_to=len(B), file_name=os.path.basename(path))
+                ctx.count('index_files_written')
+                ctx.count('written_by:' + label)
+
+                def restore():
+                    if not os.path.exists(p1i) or open(p1i, 'rb').read() != B:
+                        with open(p1i, 'wb') as f:
+                            f.write(B)
+
+                # the fresh index of the data file as it is now
+                if data not in fresh_cache:
+                    fresh_cache[data] = ic.run_indexer(path, 1, save_index=False)
+                    restore()
+                res = fresh_cache[data]
+                if res[0] == 'raise':
+                    ctx.violation('C09/indexing-raised', res[1], replay)
+                    continue
+                recs = ','.join('%s:%d:%d' % ('n' if t is None else t, ty, o) for o, ty, t in zip(res[1], res[2], res[3]))
+                got = load_index(p1i, path, delete_on_error=False)
+                accepted = got.startswith('ok')
+                ctx.case('written' + json.dumps([label, d.hex()]), nontrivial=True)
+                if accepted:
+                    ctx.count('written_index_accepted')
+                    if got != 'ok ' + recs:
+                        ctx.violation('C09/saved-index-differs-from-fresh',
+                                      'the index written by %s loads as (time:type:offset) %s; a fresh index of the same data file is %s'
+                                      % (label, got[3:200], recs[:200]), replay)
+                    else:
+                        # byte for byte what the model's save() writes for the fresh index
+                        lines.append('p1isave %d %s' % (len(data), recs or '-'))
+                        pending.append(('save', replay, B.hex()))
+                elif got.startswith('ValueError'):
+                    ctx.count('written_index_refused')
+                    ctx.count('written_index_refused:' + label)
+                else:
+                    ctx.violation('C09/index-left-on-disk-load-raised', '%s: %s' % (label, got), replay)
+                    continue
+                # reads through the written index vs the same reads with the index ignored
+                if data not in qcache:
+                    qcache[data] = queries(rng, times, set(res[2]), ctx.thorough)
+                qs = qcache[data]
+                if not ctx.thorough:
+                    # quick tier: the full set of reads for every distinct (data file, index file) content; for a producer that
+                    # wrote the very bytes another one already wrote for the same data, the unfiltered read and a sample
+                    if (data, B) in seen_pairs:
+                        qs = qs[:1] + rng.sample(qs[1:], min(6, len(qs) - 1))
+                    seen_pairs.add((data, B))
+                for q in qs:
+                    key = (data, _qkey(q))
+                    restore()
+                    via = _read(path, q, save_index=False)
+                    if accepted and (not os.path.exists(p1i) or open(p1i, 'rb').read() != B):
+                        ctx.count('written_index_replaced_during_read')
+                    if key not in ign_cache:
+                        ign_cache[key] = _read(path, q, ignore_index=True, save_index=False)
+                    ign = ign_cache[key]
+                    restore()
+                    rq = dict(replay, query=q)
+                    ctx.case('via' + json.dumps([label, d.hex(), q], sort_keys=True), nontrivial=True)
+                    ctx.count('reads_through_written_index')
+                    if 'range' in q:
+                        ctx.count('time_range_reads_through_written_index')
+                    if not q:
+                        pending.append(('open', rq, via, data))          # unfiltered: also against the Lean scan of the data
+                    if via[0] == 'raise':
+                        if ign[0] != 'raise':
+                            ctx.violation('C09/read-through-saved-index-raised', '%s, query %s: %s (index ignored: %d messages)'
+                                          % (label, _qkey(q), via[1], len(ign[1])), rq)
+                    elif ign[0] == 'raise':
+                        ctx.count('index_ignored_read_raised')
+                    elif via[1] != ign[1]:
+                        ctx.violation('C09/read-through-saved-index-differs',
+                                      'index written by %s, read %s: through the saved index -> (offset, ordinal) %s; with the index '
+                                      'ignored -> %s' % (label, _qkey(q), via[1][:12], ign[1][:12]), rq)
+            finally:
+                fast_indexer.cpu_count = real_cpu_count
+                shutil.rmtree(dirp, ignore_errors=True)
+
+
 def run(ctx, budget):
     rng = ctx.rng
     lines, pending = [], []
@@ -297,6 +645,7 @@ def run(ctx, budget):
     one_log(ctx, b'', 'empty', lines, pending)
     one_log(ctx, b'\x01\x02\x03', 'junk', lines, pending)
     histories(ctx, budget * 20, lines, pending)
+    written_indexes(ctx, 8 if budget >= 10 else 3, lines, pending)
     outs = ctx.driver(lines)
     opens = [p for p in pending if p[0] == 'open']
     fresh = scan_oracle(ctx, [p[3] for p in opens])
@@ -345,7 +694,14 @@ def check(ctx):
                        'length 0..len of the .p1i (all lengths for the unchanged data file and for data truncated at message ends; lengths '
                        '= 0,1,13 mod 14 for other variants in the quick tier) x data variants {same, message appended, junk appended, '
                        'empty, truncated at random points and at message ends}: FileIndex(load) vs the Lean model, and MixedLogReader '
-                       'vs a fresh scan; plus random histories of open/append/truncate-data/truncate-index; distinct = distinct request')
+                       'vs a fresh scan; plus random histories of open/append/truncate-data/truncate-index; plus every library entry point that '
+                       'writes an index file (MixedLogReader open, generate_index_file, fast_generate_index, FileIndexBuilder append-loop '
+                       'and from_file, extract_fusion_engine_log to a new / default / in-place / already existing output, locate_log with '
+                       'extraction, FileIndex load+save and [:]+save) run on captures with junk before/between/after the messages and '
+                       'P1 times whose fractional seconds cover [0,1): the written index must load as the fresh index of its data '
+                       'file (and be the bytes the model saves for it) or be refused, and unfiltered / per-type / time-range reads '
+                       '(bounds at, between and at the whole seconds around message times, absolute and relative) through it must '
+                       'equal the same reads with the index ignored; distinct = distinct request')
     ctx.assumptions += ['file system: np.fromfile reads floor(len/14) whole records; save() removes the old file then writes with one '
                         'tofile(); a crash during save is modelled as any prefix of the bytes',
                         'data-file changes considered: append and truncate (the property\'s history alphabet), not arbitrary replacement']
@@ -366,6 +722,15 @@ def replay(ctx, path):
     p1i = os.path.splitext(p)[0] + '.p1i'
     if 'p1i' in r:
         open(p1i, 'wb').write(bytes.fromhex(r['p1i'])[:r['truncate_p1i_to']])
+    if r.get('query'):
+        B = bytes.fromhex(r['p1i'])
+        via = _read(p, r['query'], save_index=False)
+        open(p1i, 'wb').write(B)
+        ign = _read(p, r['query'], ignore_index=True, save_index=False)
+        print('query', r['query'], 'through the saved index:', via, 'index ignored:', ign)
+        if via != ign:
+            ctx.violation('C09/replay', 'replayed', r)
+        return fv.finish(ctx, 'proof', None)
     res = open_log(p)
     fresh = scan_oracle(ctx, [d2])[0]
     print('open:', res, 'fresh scan:', fresh)
